@@ -1,10 +1,131 @@
 import GormModel.Drv.Util
+import GormModel.Model.Bind
 open Lean
+open Gorm.Bind
 namespace Gorm.Drv
+namespace HC01
 
-/-- line-protocol handler for C01 (ops are JSON arrays `[opname, args…]`); returns `none` for ops it does not own -/
+def chars? (j : Json) : Option (List Char) := (jStr? j).map String.toList
+
+def parseCmp (s : String) : Option Cmp :=
+  match s with
+  | "eq" => some .eq | "neq" => some .neq | "gt" => some .gt | "gte" => some .gte
+  | "lt" => some .lt | "lte" => some .lte | "like" => some .like | "notlike" => some .notLike
+  | _ => none
+
+def cmpName : Cmp → String
+  | .eq => "eq" | .neq => "neq" | .gt => "gt" | .gte => "gte" | .lt => "lt" | .lte => "lte"
+  | .like => "like" | .notLike => "notlike"
+
+def strs? (j : Json) : Option (List (List Char)) := do
+  (← jArr? j).toList.mapM chars?
+
+/-- JSON → `Val String` (payloads are the harness' tagged value strings) -/
+partial def parseVal (j : Json) : Option (Val String) :=
+  match j with
+  | Json.null => some .nil
+  | _ => do
+    let a ← jArr? j
+    let tag ← jStr? (arg a 0)
+    let vals (k : Nat) : Option (List (Val String)) := do (← jArr? (arg a k)).toList.mapM parseVal
+    match tag with
+    | "s" => some (.scalar (← jStr? (arg a 1)))
+    | "b" => some (.bytes (← jBool? (arg a 1)) (← (← jArr? (arg a 2)).toList.mapM jStr?))
+    | "dv" => some (.dvaluer (← jBool? (arg a 1)) (← jStr? (arg a 2)))
+    | "gv" => some (.gvaluer (← jBool? (arg a 1)) (← parseVal (arg a 2)))
+    | "l" => some (.list (← jBool? (arg a 1)) (← vals 2))
+    | "il" => some (.ilist (← vals 1))
+    | "na" => some (.named (← chars? (arg a 1)) (← parseVal (arg a 2)))
+    | "m" => some (.nmap (← strs? (arg a 1)) (← vals 2))
+    | "st" =>
+      let fs ← (← jArr? (arg a 1)).toList.mapM fun f => do
+        let p ← jArr? f
+        some ((← chars? (arg p 0)), (← jBool? (arg p 1)))
+      some (.strct fs (← vals 2))
+    | "col" => some (.column (← chars? (arg a 1)) (← chars? (arg a 2)) (← chars? (arg a 3)) (← jBool? (arg a 4)))
+    | "tab" => some (.table (← chars? (arg a 1)) (← chars? (arg a 2)) (← jBool? (arg a 3)))
+    | "e" => some (.expr (← chars? (arg a 1)) (← vals 2) (← jBool? (arg a 3)))
+    | "ne" => some (.nexpr (← chars? (arg a 1)) (← vals 2))
+    | "cmp" => some (.cmp (← parseCmp (← jStr? (arg a 1))) (← parseVal (arg a 2)) (← parseVal (arg a 3)))
+    | "in" => some (.inn (← jBool? (arg a 1)) (← parseVal (arg a 2)) (← vals 3))
+    | "values" => some (.values (← vals 1) (← vals 2))
+    | "set" => some (.set (← vals 1) (← vals 2))
+    | "as" => some (.assign (← parseVal (arg a 1)) (← parseVal (arg a 2)))
+    | "limit" => some (.limit (← jBool? (arg a 1)) (← jBool? (arg a 2)) (← jStr? (arg a 3)) (← jBool? (arg a 4)) (← jStr? (arg a 5)))
+    | "oc" => some (.onConflict (← chars? (arg a 1)) (← vals 2) (← vals 3) (← jBool? (arg a 4)) (← parseVal (arg a 5)) (← vals 6))
+    | "w" => some (.whereC (← vals 1))
+    | "ci" => some (.clauseI (← chars? (arg a 1)) (← parseVal (arg a 2)))
+    | "cl" => some (.clauses (← strs? (arg a 1)) (← vals 2))
+    | "sq" => some (.subq (← strs? (arg a 1)) (← vals 2))
+    | "rs" => some (.rsub (← chars? (arg a 1)) (← vals 2))
+    | _ => none
+
+def cs (s : List Char) : Json := Json.str (String.ofList s)
+def tagged (t : String) (xs : List Json) : Json := Json.arr (Json.str t :: xs).toArray
+
+/-- `Val String` → JSON (same encoding) -/
+partial def valJ (v : Val String) : Json :=
+  let l (vs : List (Val String)) : Json := Json.arr (vs.map valJ).toArray
+  let ss (xs : List (List Char)) : Json := Json.arr (xs.map cs).toArray
+  match v with
+  | .nil => Json.null
+  | .scalar b => tagged "s" [Json.str b]
+  | .bytes n bs => tagged "b" [Json.bool n, Json.arr (bs.map Json.str).toArray]
+  | .dvaluer n b => tagged "dv" [Json.bool n, Json.str b]
+  | .gvaluer n i => tagged "gv" [Json.bool n, valJ i]
+  | .list s vs => tagged "l" [Json.bool s, l vs]
+  | .ilist vs => tagged "il" [l vs]
+  | .named nm x => tagged "na" [cs nm, valJ x]
+  | .nmap ks vs => tagged "m" [ss ks, l vs]
+  | .strct fs vs => tagged "st" [Json.arr (fs.map fun f => Json.arr #[cs f.1, Json.bool f.2]).toArray, l vs]
+  | .column t n a r => tagged "col" [cs t, cs n, cs a, Json.bool r]
+  | .table n a r => tagged "tab" [cs n, cs a, Json.bool r]
+  | .expr s as w => tagged "e" [cs s, l as, Json.bool w]
+  | .nexpr s as => tagged "ne" [cs s, l as]
+  | .cmp op c x => tagged "cmp" [Json.str (cmpName op), valJ c, valJ x]
+  | .inn neg c vs => tagged "in" [Json.bool neg, valJ c, l vs]
+  | .values c r => tagged "values" [l c, l r]
+  | .set c x => tagged "set" [l c, l x]
+  | .assign c x => tagged "as" [valJ c, valJ x]
+  | .limit h nn lim op off => tagged "limit" [Json.bool h, Json.bool nn, Json.str lim, Json.bool op, Json.str off]
+  | .onConflict c cols tw dn du w => tagged "oc" [cs c, l cols, l tw, Json.bool dn, valJ du, l w]
+  | .whereC es => tagged "w" [l es]
+  | .clauseI nm e => tagged "ci" [cs nm, valJ e]
+  | .clauses ns es => tagged "cl" [ss ns, l es]
+  | .subq ns es => tagged "sq" [ss ns, l es]
+  | .rsub t vs => tagged "rs" [cs t, l vs]
+
+def parseDialect (j : Json) : Option Dialect :=
+  match jStr? j with
+  | some "qmark" => some .qmark
+  | some "dollar" => some .dollar
+  | _ => none
+
+def stJ (d : Dialect) (st : St String) : Json :=
+  Json.mkObj [("sql", cs (concretize d st.segs)), ("vars", Json.arr (st.vars.map valJ).toArray),
+    ("phs", natListJ (phs st.segs)), ("oof", Json.bool st.oof), ("unsupported", Json.bool st.unsupported)]
+
+end HC01
+
+open HC01 in
+/-- line-protocol handler for C01 (ops are JSON arrays `[opname, args…]`); returns `none` for ops it does not own
+    ["bind.render", dialect, val]                      → {sql, vars, phs, oof, unsupported}   (`stmt.AddVar(stmt, v)` on a fresh statement)
+    ["bind.cond", dialect, isNum, query, [args]]       → "fallthrough" | {…}                  (BuildCondition string dispatch, then Build of each result)
+    ["bind.wf", val]                                   → bool (decidable well-formedness, Model side) -/
 def handleC01 (op : String) (args : Array Json) : Option Json := do
   match op with
+  | "bind.render" =>
+    let d ← parseDialect (arg args 1)
+    let v ← parseVal (arg args 2)
+    some (stJ d (render d v))
+  | "bind.cond" =>
+    let d ← parseDialect (arg args 1)
+    let isNum ← jBool? (arg args 2)
+    let q ← chars? (arg args 3)
+    let as ← (← jArr? (arg args 4)).toList.mapM parseVal
+    match buildCondStr isNum q as with
+    | none => some (Json.str "fallthrough")
+    | some es => some (stJ d (render d (.whereC es)))
   | _ => none
 
 end Gorm.Drv
